@@ -89,7 +89,12 @@ txt += ("\nLessons that were turned into input classes everywhere they apply: in
         "tails -- were caught at the first try by classes added in earlier rounds;\n"
         "from round 12 (the other 10 properties, 4 missed at first): Bose-Hubbard with local dimensions 13..200 (occupancies in a narrow integer type), coefficient\n"
         "tensors with exactly vanishing REAL parts, an evolved state EDITED between two TDVP calls so that shape and norm of a tensor are kept but its canonical form is\n"
-        "not, and Lanczos runs of 70..110 vectors on a real 160-dimensional problem with an isolated level.\n\n"
+        "not, and Lanczos runs of 70..110 vectors on a real 160-dimensional problem with an isolated level;\n"
+        "from round 13 (a last round in which the agents got ONLY the property text again, no hints about earlier changes; see the rows named `-r13-`): label arrays\n"
+        "kept by reference in the constructors, a block-diagonal buffer typed by the first operand, conjugation decided by the dtype of the last site, a fast path\n"
+        "for already right-canonical states that reports the norm without dividing it out, a merge condition dropped for the retained node, a unit-coefficient fast\n"
+        "path that overwrites parallel edges, a greedy start hiding an off-by-one in the infinite distance, and the others listed in the table were caught at the\n"
+        "first try by input classes added in earlier rounds, unless their row says otherwise.\n\n"
         "Note on the repository suite: `test_krylov.py::test_eigh_krylov` fails in about 2 % of runs on the unchanged tree (12 of 600 seeded replays of its body, the\n"
         "same number before and after fix `3c1fa1a`): its tolerance on the second Ritz value is statistical. It is unrelated to any change made here.\n")
 d = open('/verif/DESIGN.md').read()
